@@ -23,7 +23,7 @@ instance tree = {field: int | tree | [tree]}  (absent optional fields are missin
 import itertools
 import json
 
-from typedpy import Structure, Integer, Array, Set, Serializer, Deserializer, mappers, serialize, deserialize_structure
+from typedpy import Structure, Integer, Array, Set, Map, String, Serializer, Deserializer, mappers, serialize, deserialize_structure
 from typedpy.structures import StructMeta
 from typedpy.serialization.mappers import DoNotSerialize
 import sys as _sys
@@ -131,7 +131,7 @@ def gen_attr(rng, fields):
     return {"list": [gen_mapper(rng, fields) for _ in range(rng.randint(1, 3))]}
 
 
-def gen_class(rng, depth, max_levels, nest_budget):
+def gen_class(rng, depth, max_levels, nest_budget, kinds=("one", "one", "arr", "set")):
     _counter[0] += 1
     name = f"K{_counter[0]}"
     n_levels = rng.randint(1, max_levels)
@@ -148,10 +148,10 @@ def gen_class(rng, depth, max_levels, nest_budget):
             nm = pool.pop()
             kind = "int"
             if depth < nest_budget and rng.random() < (0.4 if depth == 0 else 0.45):
-                kind = rng.choice(["one", "one", "arr", "set"])
+                kind = rng.choice(list(kinds))
             fd = {"n": nm, "opt": rng.random() < 0.45, "kind": kind}
             if kind != "int":
-                fd["cls"] = gen_class(rng, depth + 1, 2, nest_budget)
+                fd["cls"] = gen_class(rng, depth + 1, 2, nest_budget, kinds)
             fields.append(fd)
         sofar = sofar + fields
         levels.append({"mapper": gen_attr(rng, sofar) if sofar else None, "fields": fields})
@@ -169,6 +169,9 @@ def gen_instance(rng, cd, p_absent=0.45):
             out[f["n"]] = rng.choice([0, 1, 2, 3, 5, 7, -1, 10, 42])
         elif f["kind"] == "one":
             out[f["n"]] = gen_instance(rng, f["cls"], p_absent)
+        elif f["kind"] == "map":
+            out[f["n"]] = {k: gen_instance(rng, f["cls"], p_absent)
+                           for k in rng.sample(["k_a", "kB", "x", "A_b", "a"], rng.choice([0, 1, 1, 2]))}
         else:
             n = rng.choice([0, 1, 1, 2]) if f["kind"] == "arr" else rng.choice([1, 2])
             elems = []
@@ -319,6 +322,27 @@ def des_cases(rng, n):
     return out
 
 
+def mapfield_cases(rng, n):
+    """stream: classes holding structures as Map values (Map[String, Cls]), next to directly nested and
+    Array-nested ones, with the full mapper vocabulary — compared with the Lean model (class-directed
+    serializer serC, deserialization of every value as a call of its own with the caller's keep_undefined)"""
+    out = []
+    for _ in range(n):
+        cd = gen_class(rng, 0, 2, rng.choice([1, 1, 2]), kinds=("map", "map", "one", "arr"))
+        if not has_maps(cd):
+            continue
+        for _ in range(2):
+            out.append({"cls": cd, "kw": gen_instance(rng, cd, rng.choice([0.2, 0.5])),
+                        "camel": rng.random() < 0.3, "strict": rng.random() < 0.3,
+                        "explicit": gen_explicit(rng, cd) if rng.random() < 0.1 else None,
+                        "doc2": rng.random() < 0.3, "ku": rng.choice([None, None, None, True, False])})
+    return out
+
+
+def has_maps(cd):
+    return any(f["kind"] == "map" or (f["kind"] != "int" and has_maps(f["cls"])) for f in all_fields(cd))
+
+
 def des_differs(cd):
     """some class of the tree defines a _deserialization_mapper that is not a copy of its serialization mapper"""
     return any(lv.get("des") is not None and lv["des"] != lv["mapper"] for lv in cd["levels"]) or any(
@@ -411,7 +435,7 @@ def gen_cases(rng, tier, n):
                     case["entry"] = "function"
                 cases.append(case)
     return (cases + history_cases(rng, max(20, n // 25)) + closed_cases(rng, max(40, n // 8)) + fixed_cases()
-            + map_cases(rng, max(40, n // 10)) + ku_cases(rng, max(30, n // 16)) + des_cases(rng, max(40, n // 12)) + mi_cases(rng, max(60, n // 8)))
+            + map_cases(rng, max(40, n // 10)) + fc_cases(rng, max(60, n // 12)) + mapfield_cases(rng, max(60, n // 10)) + ku_cases(rng, max(30, n // 16)) + des_cases(rng, max(40, n // 12)) + mi_cases(rng, max(60, n // 8)))
 
 
 def _flat(name, fields, mapper, opt=()):
@@ -497,7 +521,8 @@ def build_class(cd, registry):
                 ns[f["n"]] = Integer
             else:
                 sub = build_class(f["cls"], registry)
-                ns[f["n"]] = sub if f["kind"] == "one" else (Array[sub] if f["kind"] == "arr" else Set[sub])
+                ns[f["n"]] = (sub if f["kind"] == "one" else Array[sub] if f["kind"] == "arr"
+                              else Map[String, sub] if f["kind"] == "map" else Set[sub])
         ns["_required"] = [f["n"] for f in lv["fields"] if not f["opt"]]
         if lv.get("addl"):
             ns["_additional_properties" if lv["addl"] == "new" else "_additionalProperties"] = False
@@ -522,6 +547,8 @@ def make_instance(cd, kw, registry):
             args[f["n"]] = v
         elif f["kind"] == "one":
             args[f["n"]] = make_instance(f["cls"], v, registry)
+        elif f["kind"] == "map":
+            args[f["n"]] = {k: make_instance(f["cls"], e, registry) for k, e in v.items()}
         elif f["kind"] == "arr":
             args[f["n"]] = [make_instance(f["cls"], e, registry) for e in v]
         else:
@@ -544,6 +571,8 @@ def dump_inst(x, cd, canonical):
             return v
         if f["kind"] == "one":
             return dump_inst(v, f["cls"], canonical)
+        if f["kind"] == "map":
+            return {"o": [[k, dump_inst(e, f["cls"], canonical)] for k, e in v.items()]}
         return [dump_inst(e, f["cls"], canonical) for e in v]
 
     if canonical:
@@ -577,7 +606,7 @@ def find_extras(x, cd, path=""):
         f = by_name[k]
         if v is None or f["kind"] == "int":
             continue
-        for i, e in enumerate([v] if f["kind"] == "one" else list(v)):
+        for i, e in enumerate([v] if f["kind"] == "one" else list(v.values()) if f["kind"] == "map" else list(v)):
             out += find_extras(e, f["cls"], f"{path}{k}.")
     return out
 
@@ -595,7 +624,7 @@ def model_extras(tree, cd, path=""):
         f = by_name[k]
         if v is None or f["kind"] == "int":
             continue
-        for e in ([v] if f["kind"] == "one" else list(v)):
+        for e in ([v] if f["kind"] == "one" else [p[1] for p in v["o"]] if f["kind"] == "map" else list(v)):
             out += model_extras(e, f["cls"], f"{path}{k}.")
     return out
 
@@ -634,6 +663,8 @@ def canon_inst(tree, cd):
             out[f["n"]] = v
         elif f["kind"] == "one":
             out[f["n"]] = canon_inst(v, f["cls"])
+        elif f["kind"] == "map":
+            out[f["n"]] = {k: canon_inst(e, f["cls"]) for k, e in v.items()}
         else:
             elems = [canon_inst(e, f["cls"]) for e in v]
             if f["kind"] == "set":
@@ -680,6 +711,8 @@ def find_cd(cd, name):
 def run_impl(case):
     if case.get("oracle") == "map":
         return run_map(case)
+    if case.get("oracle") == "fc":
+        return run_fc(case)
     cd = case["cls"]
     registry = {}
     cls = build_class(cd, registry)
@@ -734,8 +767,11 @@ def run_call(cd, registry, case):
             names = {c: n for n, c in registry.items()}
             # the dict keeps insertion order and entries are never removed: the new ones are the last ones
             fresh = list(itertools.islice(reversed(real_cache.items()), len(real_cache) - n0))[::-1]
-            out["cache_new"] = json.dumps([[names.get(k[0], getattr(k[0], "__name__", "?")), "ov" if k[1] else "",
-                                            bool(k[2]), mapper_to_wire(v)] for k, v in fresh], separators=(",", ":"))
+            try:
+                out["cache_new"] = json.dumps([[names.get(k[0], getattr(k[0], "__name__", "?")), "ov" if k[1] else "",
+                                                bool(k[2]), mapper_to_wire(v)] for k, v in fresh], separators=(",", ":"))
+            except Exception:       # a cache keyed / filled differently: its contents are evidence, not the property
+                out.pop("cache_new", None)
             doc_f = serialize(x, mapper=explicit, camel_case_convert=camel)
             if doc_f != doc:
                 out["ser_paths_differ"] = [doc, doc_f]
@@ -780,7 +816,7 @@ def cls_to_wire(cd):
     for f in all_fields(cd):
         w = {"n": f["n"], "opt": f["opt"]}
         if f["kind"] != "int":
-            w["shape"] = "one" if f["kind"] == "one" else "many"
+            w["shape"] = "one" if f["kind"] == "one" else "map" if f["kind"] == "map" else "many"
             w["cls"] = cls_to_wire(f["cls"])
         fields.append(w)
     names = level_names(cd)
@@ -847,6 +883,11 @@ def mapper_kinds(cd, acc):
 
 
 def tags(case, impl, model):
+    if case.get("oracle") == "fc":
+        r = impl.get("deser", {})
+        return ["stream=functioncall(oracle-only)", "fc.where=" + case["where"], f"fc.own={case['own']}",
+                f"camel={case['camel']}", "fc.args=" + ("none" if not case["args"] else str(len(case["args"]))),
+                "fc.roundtrip=" + ("equal" if r.get("equal") else "different")]
     if case.get("oracle") == "map":
         r = impl.get("deser", {})
         return ["stream=map-values(oracle-only)", f"camel={case['camel']}", "holder=" + case["spec"]["holder"],
@@ -913,6 +954,9 @@ def nontrivial(case):
 
 
 def describe(case, impl, model):
+    if case.get("oracle") == "fc":
+        return {"stream": "FunctionCall mapper values (oracle-only)", "case": {k: v for k, v in case.items() if k != "vals"},
+                "real_document": impl.get("doc"), "real_deserialized": impl.get("deser")}
     if case.get("oracle"):
         return {"stream": "map-values (oracle-only)", "spec": case["spec"], "camel": case["camel"],
                 "real_document": impl.get("doc"), "real_deserialized": impl.get("deser")}
@@ -966,6 +1010,8 @@ def correspondence(cd, impl, model):
     # the cache invariant (CacheOK): an entry the real code filed under a key the model files too must hold the
     # model's aggregate for that key — a wrong value is handed to every later call with that key.  WHICH keys
     # get filed is the code's business (a different caching strategy is not a violation): only tagged.
+    if model.get("serCisSer") is False:
+        return "class-directed serializer differs from ser on an instance without Map-valued fields: theorem serC_eq_ser contradicted"
     if "cache_new" in impl and "cacheNew" in model:
         mine = {(e[0], e[1], e[2]): e[3] for e in model["cacheNew"]}
         for e in json.loads(impl["cache_new"]):
@@ -1124,4 +1170,125 @@ def judge_map(case, impl):
             key = "keep-undefined-leak:deserialize_map"
         fails.append((key, "deserialize(serialize(x)) != x for a class holding structures as Map values: document "
                       + json.dumps(impl["doc"])[:300] + " gave " + json.dumps(r)[:300] + " for " + desc))
+    return None, fails
+
+# ------------------------------------------------------------------ oracle-only stream: FunctionCall mapper values
+# (no Lean counterpart: the model is rename-only.  Documented behaviour, simple shapes only: one dict mapper, a
+#  FunctionCall on one field with no args or with field-name args, optional rename of ANOTHER field, optionally one
+#  level down under "<field>._mapper", given explicitly or as the class's own _serialization_mapper)
+
+FC_FUNCS = {"times2": lambda x: x * 2, "half": lambda x: x // 2, "plus5": lambda x: x + 5, "minus5": lambda x: x - 5,
+            "add": lambda x, y: x + y, "sub": lambda x, y: x - y}
+FC_INVERSE = {"times2": "half", "plus5": "minus5", "add": "sub"}
+
+
+def fc_cases(rng, n):
+    out = []
+    for _ in range(n):
+        names = rng.sample(["a", "b", "c_d", "e_f", "g"], 3)
+        fn = rng.choice(["times2", "plus5", "add"])
+        target, other = names[0], names[1]
+        out.append({"oracle": "fc", "names": names, "fn": fn, "target": target,
+                    "args": [target, other] if fn == "add" else rng.choice([None, [target]]),
+                    "rename": rng.choice([None, None, [names[2], "RR" + names[2].replace("_", "")]]),
+                    "where": rng.choice(["top", "top", "nested", "array"]),
+                    "own": rng.random() < 0.35, "camel": rng.random() < 0.35,
+                    "vals": [rng.choice([0, 1, 2, 4, 6, 10]) for _ in range(9)]})
+    return out
+
+
+def run_fc(case):
+    from typedpy import FunctionCall
+    names, fn, target = case["names"], case["fn"], case["target"]
+    camel, where = case["camel"], case["where"]
+
+    def fc(name):
+        return FunctionCall(func=FC_FUNCS[name], args=case["args"]) if case["args"] else FunctionCall(func=FC_FUNCS[name])
+
+    def flat(direction):
+        m = {target: fc(fn if direction == "ser" else FC_INVERSE[fn])}
+        if case["rename"]:
+            m[case["rename"][0]] = case["rename"][1]
+        return m
+
+    _counter[0] += 1
+    ns = {n: Integer for n in names}
+    own = case["own"] and where == "top"
+    if own:
+        ns["_serialization_mapper"] = flat("ser")
+        ns["_deserialization_mapper"] = flat("des")
+    F = StructMeta(f"F{_counter[0]}", (Structure,), ns)
+    vals = iter(case["vals"] * 3)
+
+    def f_inst():
+        return F(**{n: next(vals) for n in names})
+
+    if where == "top":
+        cls, x = F, f_inst()
+        ser_m, des_m = (None, None) if own else (flat("ser"), flat("des"))
+    else:
+        holder = F if where == "nested" else Array[F]
+        cls = StructMeta(f"O{_counter[0]}", (Structure,), {"n_x": holder, "z": Integer})
+        x = cls(n_x=f_inst() if where == "nested" else [f_inst(), f_inst()], z=next(vals))
+        ser_m, des_m = {"n_x._mapper": flat("ser")}, {"n_x._mapper": flat("des")}
+
+    from typedpy.serialization.mappers import _convert_to_camelcase
+
+    def key(n):
+        if case["rename"] and n == case["rename"][0]:
+            return case["rename"][1]
+        return _convert_to_camelcase(n) if camel else n
+
+    def f_doc(f):
+        d = {}
+        for n in names:
+            v = getattr(f, n)
+            if n == target:
+                argv = [getattr(f, a) for a in case["args"]] if case["args"] else [v]
+                v = FC_FUNCS[fn](*argv)
+            d[key(n)] = v
+        return d
+
+    if where == "top":
+        spec = f_doc(x)
+    else:
+        spec = {key("n_x"): f_doc(x.n_x) if where == "nested" else [f_doc(e) for e in x.n_x], "z": x.z}
+    out = {"spec_doc": spec}
+    try:
+        doc = (Serializer(x, mapper=ser_m) if ser_m else Serializer(x)).serialize(camel_case_convert=camel)
+        out["doc"] = doc
+        doc_f = serialize(x, mapper=ser_m, camel_case_convert=camel)
+        if doc_f != doc:
+            out["ser_paths_differ"] = [doc, doc_f]
+    except Exception as e:
+        out["ser_err"] = err_name(e)
+        out["ser_msg"] = str(e)[:300]
+        return out
+    # the inverse function on the way back: add(a, b) is undone by sub(doc[a], doc[b]) because b is written as it is
+    try:
+        kw = {"camel_case_convert": camel}
+        if des_m:
+            kw["mapper"] = des_m
+        y = Deserializer(cls, **kw).deserialize(doc, keep_undefined=False)
+        out["deser"] = {"ok": True, "equal": bool(y == x), "repr": repr(y)[:200]}
+    except Exception as e:
+        out["deser"] = {"err": err_name(e), "msg": str(e)[:300]}
+    return out
+
+
+def judge_fc(case, impl):
+    fails = []
+    desc = json.dumps({k: v for k, v in case.items() if k not in ("oracle", "vals")})[:400]
+    if "ser_err" in impl:
+        return None, [(f"functioncall:serialize-raises:{impl['ser_err']}", f"{impl.get('ser_msg')} for {desc}")]
+    if "ser_paths_differ" in impl:
+        fails.append(("functioncall:serializer-paths-differ", json.dumps(impl["ser_paths_differ"])[:300] + " for " + desc))
+    if impl["doc"] != impl["spec_doc"]:
+        fails.append(("functioncall:document", "a FunctionCall mapper value must write func(value | named attributes) under the "
+                      "field's key and leave the other keys to the renames: real " + json.dumps(impl["doc"])[:300]
+                      + " specified " + json.dumps(impl["spec_doc"])[:300] + " for " + desc))
+    r = impl.get("deser", {})
+    if not (r.get("ok") and r.get("equal")):
+        fails.append(("functioncall:roundtrip", "deserializing with the inverse FunctionCall does not give the instance back: "
+                      "document " + json.dumps(impl["doc"])[:300] + " gave " + json.dumps(r)[:300] + " for " + desc))
     return None, fails
